@@ -129,6 +129,9 @@ func Format(g *G, n int) []Program {
 				g.Emit(M{"op": g.PickS("String", "MarshalText", "MarshalJSON"), "x": "r0"})
 			default: // Format through package fmt
 				verb := fmtVerbs[g.R.Intn(len(fmtVerbs))]
+				if g.R.Intn(10) == 0 {
+					verb = g.PickS("s", "b") // verbs without a floating-point counterpart in package fmt (%p never reaches Format: fmt prints the pointer)
+				}
 				plus, space, zero, minus := g.R.Intn(4) == 0, g.R.Intn(4) == 0, g.R.Intn(3) == 0, g.R.Intn(4) == 0
 				hasw, hasp := g.R.Intn(2) == 0, g.R.Intn(2) == 0
 				w, p := g.Pick(0, 1, 5, 8, 12, 20, 30), g.Pick(0, 1, 2, 3, 6, 10, 17)
@@ -160,7 +163,7 @@ func Format(g *G, n int) []Program {
 				fs += verb
 				s := M{"op": "Format", "x": "r0", "f": fs, "verb": verb, "plus": plus, "space": space, "zero": zero, "minus": minus,
 					"haswidth": hasw, "width": w, "hasprec": hasp, "fprec": p}
-				if ref != "" && (hasp || (verb != "g" && verb != "G" && verb != "v")) {
+				if ref != "" && verb != "s" && verb != "p" && verb != "b" && (hasp || (verb != "g" && verb != "G" && verb != "v")) {
 					s["f64"] = ref
 				}
 				g.Emit(s)
